@@ -262,13 +262,77 @@ def check_sentence_lines(ctx: Ctx) -> None:
             ctx.ob("R-LOSSLESS-L4", f"{lw.qual} :: pop(0) paired with the merge", paired,
                    "the first wrapped line may be removed from `wrapped` only right after it was appended to the previous line "
                    "(otherwise a line is lost)", where(lw, pn))
+        def dropped_on(path: list) -> int | None:
+            """How many leading lines are missing from what this path hands to `{L}.extend(...)`, followed through copies
+            (`rest = wrapped`), slices (`rest = wrapped[1:]`, islice(wrapped, 1, None)) and in-place removals (pop(0), del x[0]);
+            None when the path extends by something that is not the wrapped sentence seen that way."""
+            objs: dict[int, int] = {}
+            env: dict[str, int | None] = {}
+            fresh = [0]
+
+            def new_obj(d: int) -> int:
+                fresh[0] += 1
+                objs[fresh[0]] = d
+                return fresh[0]
+
+            def ev(e: ast.AST) -> int | None:
+                if isinstance(e, ast.Name):
+                    return env.get(e.id)
+                if isinstance(e, ast.Call) and prog.resolve_call(lw, e) == [wl]:
+                    return new_obj(0)
+                if isinstance(e, ast.Subscript) and isinstance(e.slice, ast.Slice) and e.slice.upper is None and e.slice.step is None \
+                        and isinstance(e.slice.lower, ast.Constant) and isinstance(e.slice.lower.value, int) and e.slice.lower.value >= 0:
+                    o = ev(e.value)
+                    return None if o is None else new_obj(objs[o] + e.slice.lower.value)
+                if isinstance(e, ast.Call) and isinstance(e.func, (ast.Name, ast.Attribute)) and (e.func.id if isinstance(e.func, ast.Name) else e.func.attr) == "islice" \
+                        and len(e.args) == 3 and isinstance(e.args[1], ast.Constant) and isinstance(e.args[1].value, int) and e.args[1].value >= 0 \
+                        and isinstance(e.args[2], ast.Constant) and e.args[2].value is None:
+                    o = ev(e.args[0])
+                    return None if o is None else new_obj(objs[o] + e.args[1].value)
+                if isinstance(e, ast.Call) and isinstance(e.func, ast.Name) and e.func.id == "list" and len(e.args) == 1 and not e.keywords:
+                    o = ev(e.args[0])
+                    return None if o is None else new_obj(objs[o])
+                return None
+
+            seen_ext: list[int | None] = []
+            for x in path:
+                a_ = x.ast
+                # removals in place
+                for c in flow.calls_in(x):
+                    if isinstance(c.func, ast.Attribute) and c.func.attr == "pop" and isinstance(c.func.value, ast.Name) and env.get(c.func.value.id) is not None \
+                            and len(c.args) == 1 and isinstance(c.args[0], ast.Constant) and c.args[0].value == 0:
+                        objs[env[c.func.value.id]] += 1
+                    if isinstance(c.func, ast.Attribute) and c.func.attr == "extend" and isinstance(c.func.value, ast.Name) and c.func.value.id == L and len(c.args) == 1:
+                        o = ev(c.args[0])
+                        seen_ext.append(None if o is None else objs[o])
+                if x.kind == "stmt" and isinstance(a_, ast.Delete) and len(a_.targets) == 1 and isinstance(a_.targets[0], ast.Subscript) \
+                        and isinstance(a_.targets[0].value, ast.Name) and isinstance(a_.targets[0].slice, ast.Constant) and a_.targets[0].slice.value == 0 \
+                        and env.get(a_.targets[0].value.id) is not None:
+                    objs[env[a_.targets[0].value.id]] += 1
+                if x.kind == "stmt" and isinstance(a_, ast.AugAssign) and isinstance(a_.target, ast.Name) and a_.target.id == L and isinstance(a_.op, ast.Add):
+                    o = ev(a_.value)
+                    seen_ext.append(None if o is None else objs[o])
+                if x.kind == "stmt" and isinstance(a_, ast.Assign) and len(a_.targets) == 1 and isinstance(a_.targets[0], ast.Name):
+                    env[a_.targets[0].id] = ev(a_.value)
+                elif x.kind == "stmt" and isinstance(a_, (ast.Assign, ast.AnnAssign, ast.AugAssign)):
+                    for t_ in ast.walk(a_):
+                        if isinstance(t_, ast.Name) and isinstance(t_.ctx, ast.Store) and t_.id != L:
+                            env[t_.id] = None
+            if len(seen_ext) != 1 or seen_ext[0] is None:
+                return None
+            return seen_ext[0]
+
         bad_path = None
+        n_tracked = 0
         for path in iteration_paths(flow, h):
             n_m = sum(1 for x in path if x in merges)
-            n_p = sum(removals(x) for x in path)
+            d_ = dropped_on(path)
+            n_p = d_ if d_ is not None else sum(removals(x) for x in path)
+            n_tracked += d_ is not None
             if n_m != n_p:
                 bad_path = path
                 break
+        ctx.count("sentence_loop_paths_with_the_extended_value_followed", n_tracked)
         ctx.ob("R-LOSSLESS-L4", f"{lw.qual} :: as many pops as merges on every path", bad_path is None,
                "on every path through the loop body the number of lines removed from `wrapped` must equal the number merged into the previous line",
                where(lw, h), [f"{x.lineno}: {x.text()}" for x in (bad_path or [])])
